@@ -150,7 +150,9 @@ class fetcher(base.fetcher):
                     os.unlink(path)
                 except OSError:
                     pass
-        raise last_exc
+        # the last attempt has to be looked at too
+        self._verify(path, target)
+        return path
 
     def get_path(self, fetchable):
         path = pjoin(self.distdir, fetchable.filename)
